@@ -469,7 +469,8 @@ func ValidUTF8(p []byte) bool {
 func ValidTopicName(mustUTF8 bool, p []byte) bool {
 	for len(p) > 0 {
 		ru, size := utf8.DecodeRune(p)
-		if mustUTF8 && ru == utf8.RuneError {
+		// an invalid encoding decodes as RuneError with size 1; U+FFFD itself (size 3) is a legal character
+		if mustUTF8 && ru == utf8.RuneError && size <= 1 {
 			return false
 		}
 		if size == 1 {
@@ -496,7 +497,7 @@ func ValidV5Topic(p []byte) bool {
 			subp := p[7:]
 			for len(subp) > 0 {
 				ru, size := utf8.DecodeRune(subp)
-				if ru == utf8.RuneError {
+				if ru == utf8.RuneError && size <= 1 {
 					return false
 				}
 				if size == 1 {
@@ -532,7 +533,8 @@ func ValidTopicFilter(mustUTF8 bool, p []byte) bool {
 
 	for len(p) > 0 {
 		ru, size := utf8.DecodeRune(p)
-		if mustUTF8 && ru == utf8.RuneError {
+		// an invalid encoding decodes as RuneError with size 1; U+FFFD itself (size 3) is a legal character
+		if mustUTF8 && ru == utf8.RuneError && size <= 1 {
 			return false
 		}
 		plen := len(p)
